@@ -46,7 +46,11 @@ theorem pin_resolver_valuePrefixRegex : Generated.re_resolver_valuePrefixRegex =
 theorem pin_resolver_valueRegex : Generated.re_resolver_valueRegex = Rx.argValue := rfl
 -- syntax / imports
 theorem pin_syntax_regexServiceValue : Generated.re_syntax_regexServiceValue = Rx.serviceValue := rfl
-theorem pin_imports_regexNoAlphaNum : Generated.re_imports_regexNoAlphaNum = Rx.noAlphaNum := rfl
+/-- the expression that turns a path element into an identifier part is an internal helper: pinned while it exists (what it
+computes is tied by the `alias` correspondence of C14 either way) -/
+theorem pin_imports_regexNoAlphaNum :
+    Generated.opt_imports_regexNoAlphaNum = none ∨ Generated.opt_imports_regexNoAlphaNum = some (Rx.noAlphaNum, "search") := by
+  first | exact Or.inr rfl | exact Or.inl rfl
 
 /-- anchoring of every expression (full = `\A(…)\z`, prefix = `\A(…)`, search = unanchored) -/
 theorem pin_kinds :
@@ -66,8 +70,7 @@ theorem pin_kinds :
      Generated.kind_resolver_valueRegex, Generated.kind_syntax_regexServiceValue]
       = List.replicate 28 "full"
     ∧ [Generated.kind_resolver_servicePrefixRegex, Generated.kind_resolver_taggedPrefixRegex,
-       Generated.kind_resolver_valuePrefixRegex] = List.replicate 3 "prefix"
-    ∧ Generated.kind_imports_regexNoAlphaNum = "search" := by
-  refine ⟨rfl, rfl, rfl⟩
+       Generated.kind_resolver_valuePrefixRegex] = List.replicate 3 "prefix" := by
+  refine ⟨rfl, rfl⟩
 
 end GM.Pins
